@@ -35,7 +35,7 @@ CLAIM = ('Proved in Coq END TO END for the model, Numbers naming without and wit
          'three other namings combined with a cleanup strategy, and histories with queries, reopen, faults or kills, are decided '
          'by the twin runs only. ')
 THEOREMS = ["C14_numbers_foreign_ignored", "C14_numbers_stream_foreign", "C14_numbers_cleanup_foreign_ignored", "C14_foreign_ignored", "C14_listing_accepts_family_only", "C14_listing_accepts_all_family", "C14_family_name_shape", "C14_listing_prefix", "C14_numbersdirect_foreign_ignored", "C14_numbersdirect_stream_foreign", "C14_timestampsdirect_foreign_ignored", "C14_timestampsdirect_stream_foreign", "C14_timestamps_foreign_ignored", "C14_timestamps_stream_foreign", "C14_ts_member_shape", "C14_num_member_pattern", "C14_numd_member_pattern", "C14_tsd_member_pattern", "C14_ts_member_pattern", "C14_num_foreign_non_digit", "C14_number_files_foreign_ts", "C14_ts_files_foreign_number"]
-TRUSTED = ["modelled, not verified: read_dir, Path::extension/file_stem (std semantics pinned in DESIGN appendix D)"]
+TRUSTED = ["modelled, not verified: read_dir, Path::extension/file_stem (std semantics written out in coq/Base/PathName.v and tied by the try_from cases of C16)"]
 ASSUMPTIONS = ["foreign names are generated from a near-miss grammar; file modification times are not compared (content and existence are)"]
 RULE = ("pairs of cases: (a) 1-4 foreign files/sub-directories created first - other separator, longer/shorter basename with common "
         "prefix, other discriminant, other suffix, .gz of another suffix, extra dots, missing infix, infix-like fragments, multi-byte "
